@@ -287,6 +287,20 @@ func runSpec(p *eng.Solo, sp spec) {
 			rep := firstRaceReport(se)
 			if rep == "" {
 				if err != nil {
+					if i := strings.Index(se, "panic: "); i >= 0 || strings.Contains(se, "fatal error: ") {
+						// the code under test crashed on real threads: a violation, not a harness problem
+						if i < 0 {
+							i = strings.Index(se, "fatal error: ")
+						}
+						line := se[i:]
+						if k := strings.IndexByte(line, '\n'); k > 0 {
+							line = line[:k]
+						}
+						w, _ := json.Marshal(witness{Job: stripJob(j)})
+						p.Fail(eng.Fail{Oracle: "race", Class: "free-running-crash:" + line, Witness: string(w), Detail: fmt.Sprintf("free-running pass of %s crashed\n%s", j.Name, clipTail(se[i:], 3500))})
+						reports++
+						continue
+					}
 					p.HarnessErr = fmt.Sprintf("race pass %s: %v\n%s%s", j.Name, err, out, clipTail(se, 3000))
 					return
 				}
@@ -365,7 +379,7 @@ func replayOracle(id string, ti int) eng.Oracle {
 			os.Exit(2)
 		}
 		var r struct {
-			Fails []struct{ Class, Detail string }
+			Fails   []struct{ Class, Detail string }
 			Outcome string
 			Trace   []string
 		}
